@@ -249,8 +249,9 @@ func HarnessC03Validating() {
 	case 2:
 		match := r.hashesTo(back.data)
 		if err == nil {
-			verifrt.Assert("C03.validating-returned-bytes-hash-to-cid", match)
 			verifrt.Assert("C03.validating-returns-a-block", blk != nil)
+			r.assumeNoCollision(blk.RawData())
+			verifrt.Assert("C03.validating-returned-bytes-hash-to-cid", match)
 			verifrt.Assert("C03.validating-returns-backing-bytes", bytes.Equal(blk.RawData(), back.data))
 			verifrt.Assert("C03.validating-returned-bytes-rehash", r.hashesTo(blk.RawData()))
 			verifrt.Assert("C03.validating-returns-requested-cid", blk.Cid().Equals(c))
@@ -364,6 +365,8 @@ func zz3CheckRead(r *zz3Request, w *zz3World, offset, size uint64, out []byte, e
 		verifrt.Assert("C03.file-closed-once", w.file.closes == 1)
 	}
 	if err == nil {
+		// (truncated digests: whatever buffer the code hashed and handed out, a match means the original bytes)
+		r.assumeNoCollision(out)
 		// the headline: whatever happened before, data is only handed out if it re-hashes to the request
 		verifrt.Assert("C03.file-returned-bytes-hash-to-cid", r.hashesTo(out))
 		verifrt.Assert("C03.file-returned-size", uint64(len(out)) == size)
